@@ -40,6 +40,7 @@ type c06Op struct {
 	Path     string `json:"path"` // /x | /y | /x/{id}
 	ID       string `json:"id,omitempty"`
 	Declared []Bs   `json:"declared"`
+	Params   string `json:"params,omitempty"` // what the operation declares to read, see c06In.Params
 }
 
 // one request of a history
@@ -57,6 +58,7 @@ type c06StepObs struct {
 	Asked    Bs     `json:"asked"`
 	Parse    *Bs    `json:"parse"`
 	Reparse  *Bs    `json:"reparse"`
+	FormSt   int    `json:"form_st,omitempty"` // formData operations: net/http's own verdict on the request as a form (0 = fine)
 	Hist     c06Res `json:"hist"` // inside the history (for the handler: Status 0 = 200)
 	HistRan  bool   `json:"hist_ran"`
 	Fresh    c06Res `json:"fresh"` // the same request on a fresh Context
@@ -75,6 +77,9 @@ type c06In struct {
 	Method     string    `json:"method"`
 	CT         []Bs      `json:"ct"`   // Content-Type header lines (none = absent)
 	Body       string    `json:"body"` // cl | cl0hdr | chunked | chunked-empty | none
+	// the operation's parameter set: "" a body parameter | none (no parameter at all) | pqh (only path, query and header
+	// parameters, all optional but the path one) | form (an optional formData parameter)
+	Params string `json:"params,omitempty"`
 }
 
 type c06Res struct {
@@ -96,6 +101,8 @@ type c06Obs struct {
 	HStatus   int          `json:"h_status"`
 	HCons     *Bs          `json:"h_cons"`
 	HRan      bool         `json:"h_ran"`
+	UPicked   *Bs          `json:"u_picked"`          // the consumer BindAndValidate left in route.Consumer
+	FormSt    int          `json:"form_st,omitempty"` // formData operations: net/http's own verdict on the request as a form
 	Panic     string       `json:"panic,omitempty"`
 	RouteMiss bool         `json:"route_miss,omitempty"`
 	Steps     []c06StepObs `json:"steps,omitempty"` // hist
@@ -111,7 +118,8 @@ func (c06) Rule() string {
 	return "consumes lists over concrete types, type/*, */*, entries with parameters, empty, per operation or global, with/without an API default, " +
 		"consumers registered for a subset; Content-Type from a grammar (case, parameters, OWS, quoted strings, duplicate lines, absent) plus malformed values " +
 		"plus values with commas (inside and outside quoted strings, leading, trailing, several media types in one value, several header lines, an empty first line); " +
-		"body signalled by Content-Length, chunked (ContentLength -1), an explicit Content-Length: 0 header, an empty chunked stream, or absent; methods POST/PUT/PATCH/DELETE/GET. " +
+		"body signalled by Content-Length, chunked (ContentLength -1), an explicit Content-Length: 0 header, an empty chunked stream, or absent; methods POST/PUT/PATCH/DELETE/GET; " +
+		"the operation declares a body parameter, no parameter, only path/query/header parameters, or a formData parameter (then also form media types, well-formed forms). " +
 		"Non-trivial: the request has a body and the consumes list has >=2 entries or a wildcard."
 }
 
@@ -140,7 +148,47 @@ func (c06) Enumerate(tier string) []any {
 			}
 		}
 	}
+	// the operation's parameter set against the gate: operations that declare nothing to read from the body are gated all the same
+	form := []Bs{"application/x-www-form-urlencoded", "multipart/form-data"}
+	for _, k := range []string{"none", "pqh", "form"} {
+		for _, l := range [][]Bs{{"application/json"}, {"application/x-www-form-urlencoded"}, {"multipart/form-data", "text/*"}, {}} {
+			for _, ct := range []string{"application/json", "text/plain", "application/x-www-form-urlencoded", "multipart/form-data; boundary=xyz", "image/png", "a/", ""} {
+				for _, b := range []string{"cl", "chunked", "none"} {
+					in := c06In{Declared: l, Default: "application/json", Registered: append([]Bs{"application/json", "text/plain"}, form...), Method: "POST", Body: b, Params: k}
+					if ct != "" {
+						in.CT = []Bs{Bs(ct)}
+					}
+					out = append(out, in)
+				}
+			}
+		}
+	}
 	return out
+}
+
+var c06FormTypes = []string{"application/x-www-form-urlencoded", "multipart/form-data"}
+var c06FormEntries = []string{"application/x-www-form-urlencoded", "multipart/form-data", "application/json", "multipart/*", "application/*", "*/*", "text/plain",
+	"application/x-www-form-urlencoded; charset=utf-8"}
+
+// c06FormHeader: a Content-Type naming a form media type (multipart mostly with a boundary), in the spellings of the grammar
+func c06FormHeader(r *rand.Rand) []Bs {
+	var v string
+	if r.Intn(2) == 0 {
+		v = c06Case(r, "application/x-www-form-urlencoded")
+		if r.Intn(3) == 0 {
+			v += []string{"; charset=utf-8", ";charset=UTF-8", " ; x=\"a;b\""}[r.Intn(3)]
+		}
+	} else {
+		v = c06Case(r, "multipart/form-data")
+		switch r.Intn(6) {
+		case 0: // no boundary: not a form net/http can read
+		case 1:
+			v += "; charset=utf-8; boundary=\"b-1\""
+		default:
+			v += []string{"; boundary=xyz", ";boundary=xyz", "; BOUNDARY=q7", " ;  boundary=----b"}[r.Intn(4)]
+		}
+	}
+	return []Bs{Bs(v)}
 }
 
 var c06Pool = []string{"application/json", "text/plain", "application/xml", "application/octet-stream", "image/png", "application/vnd.api+json", "text/csv"}
@@ -322,6 +370,11 @@ func c06GenHist(r *rand.Rand) c06In {
 		if r.Intn(3) == 0 {
 			op.ID = fmt.Sprintf("op%d", i)
 		}
+		// what the operation declares to read: neighbouring operations (same path, other method) differ in it
+		op.Params = []string{"", "", "", "none", "pqh", "pqh", "form"}[r.Intn(7)]
+		if op.Params == "form" && r.Intn(2) == 0 {
+			op.Declared = c06FormDeclared(r)
+		}
 		in.Ops = append(in.Ops, op)
 	}
 	var listed []string
@@ -347,6 +400,9 @@ func c06GenHist(r *rand.Rand) c06In {
 		default:
 			ct = c06Header(r)
 		}
+		if in.Ops[st.Op].Params == "form" && r.Intn(3) == 0 {
+			ct = c06FormHeader(r)
+		}
 		st.CT = ct
 		st.Body = []string{"cl", "cl", "cl", "chunked", "chunked", "cl0hdr", "chunked-empty", "none"}[r.Intn(8)]
 		in.Steps = append(in.Steps, st)
@@ -369,7 +425,22 @@ func (c06) Gen(r0 *rand.Rand, tier string, i int) any {
 	in.Method = []string{"POST", "POST", "PUT", "PATCH", "DELETE", "GET"}[r.Intn(6)]
 	in.CT = c06Header(r0)
 	in.Body = []string{"cl", "cl", "cl", "chunked", "chunked", "cl0hdr", "chunked-empty", "none"}[r0.Intn(8)]
+	if in.Params == "form" && r0.Intn(2) == 0 {
+		in.CT = c06FormHeader(r0)
+	}
 	return in
+}
+
+func c06FormDeclared(r *rand.Rand) []Bs {
+	out := []Bs{}
+	seen := map[string]bool{}
+	for n := r.Intn(3); n >= 0; n-- {
+		if e := c06FormEntries[r.Intn(len(c06FormEntries))]; !seen[e] {
+			seen[e] = true
+			out = append(out, Bs(e))
+		}
+	}
+	return out
 }
 
 func c06Config(r *rand.Rand) c06In {
@@ -405,6 +476,16 @@ func c06Config(r *rand.Rand) c06In {
 	if in.Registered == nil {
 		in.Registered = []Bs{}
 	}
+	// the operation's parameter set (drawn last: the configurations of earlier runs keep their lists)
+	in.Params = []string{"", "", "", "", "", "none", "none", "pqh", "pqh", "pqh", "form", "form"}[r.Intn(12)]
+	for _, f := range c06FormTypes { // consumers for the form types, on some APIs
+		if r.Intn(3) != 0 {
+			in.Registered = append(in.Registered, Bs(f))
+		}
+	}
+	if in.Params == "form" && r.Intn(3) != 0 {
+		in.Declared = c06FormDeclared(r)
+	}
 	return in
 }
 
@@ -427,19 +508,23 @@ func c06Build(in c06In) *c06Built {
 		F Bs
 		R []Bs
 		M string
-	}{in.Declared, in.Global, in.Default, in.Registered, in.Method})
+		P string
+	}{in.Declared, in.Global, in.Default, in.Registered, in.Method, in.Params})
 	if b, ok := c06Cache[string(kb)]; ok {
 		return b
 	}
+	opPath := c06OpPath(in.Params, "/x")
 	op := map[string]any{
 		"operationId": "doX",
-		"parameters":  []any{map[string]any{"name": "b", "in": "body", "schema": map[string]any{}}},
 		"responses":   map[string]any{"200": map[string]any{"description": "ok"}},
+	}
+	if ps := c06Params(in.Params, opPath); len(ps) > 0 {
+		op["parameters"] = ps
 	}
 	doc := map[string]any{
 		"swagger": "2.0", "info": map[string]any{"title": "t", "version": "1"},
 		"produces": []string{"application/json"},
-		"paths":    map[string]any{"/x": map[string]any{strings.ToLower(in.Method): op}},
+		"paths":    map[string]any{opPath: map[string]any{strings.ToLower(in.Method): op}},
 	}
 	if in.Global {
 		doc["consumes"] = bsList(in.Declared)
@@ -456,15 +541,10 @@ func c06Build(in c06In) *c06Built {
 	api.DefaultConsumes = string(in.Default)
 	// untyped.NewAPI always registers a JSON consumer: replace it with an instrumented one
 	for _, mt := range append([]Bs{"application/json"}, in.Registered...) {
-		key := string(mt)
-		api.RegisterConsumer(key, runtime.ConsumerFunc(func(rd io.Reader, data interface{}) error {
-			env.log = append(env.log, "consume:"+key)
-			_, _ = io.Copy(io.Discard, rd)
-			return nil
-		}))
+		api.RegisterConsumer(string(mt), c06Consumer{env, string(mt)})
 	}
 	api.RegisterProducer("application/json", runtime.JSONProducer())
-	api.RegisterOperation(strings.ToLower(in.Method), "/x", runtime.OperationHandlerFunc(func(interface{}) (interface{}, error) {
+	api.RegisterOperation(strings.ToLower(in.Method), opPath, runtime.OperationHandlerFunc(func(interface{}) (interface{}, error) {
 		env.log = append(env.log, "handle")
 		return map[string]string{"r": "ok"}, nil
 	}))
@@ -477,6 +557,103 @@ func c06Build(in c06In) *c06Built {
 	return b
 }
 
+// an instrumented consumer, identifiable when found in route.Consumer
+type c06Consumer struct {
+	env *c06Env
+	key string
+}
+
+func (c c06Consumer) Consume(rd io.Reader, data interface{}) error {
+	c.env.log = append(c.env.log, "consume:"+c.key)
+	_, _ = io.Copy(io.Discard, rd)
+	return nil
+}
+
+func c06Picked(mr *middleware.MatchedRoute) *Bs {
+	if mr == nil || mr.Consumer == nil {
+		return nil
+	}
+	b := Bs("<foreign consumer>")
+	if c, ok := mr.Consumer.(c06Consumer); ok {
+		b = Bs(c.key)
+	}
+	return &b
+}
+
+// c06OpPath: an operation with only path/query/header parameters gets a path parameter
+func c06OpPath(params, path string) string {
+	if params == "pqh" && !strings.Contains(path, "{id}") {
+		return path + "/{id}"
+	}
+	return path
+}
+
+// c06Params: the parameters of an operation of the given kind on the given path template
+func c06Params(kind, path string) []any {
+	var ps []any
+	if strings.Contains(path, "{id}") {
+		ps = append(ps, map[string]any{"name": "id", "in": "path", "type": "string", "required": true})
+	}
+	switch kind {
+	case "none":
+	case "pqh":
+		ps = append(ps, map[string]any{"name": "q", "in": "query", "type": "string"}, map[string]any{"name": "X-H", "in": "header", "type": "string"})
+	case "form":
+		ps = append(ps, map[string]any{"name": "f", "in": "formData", "type": "string"})
+	default:
+		ps = append(ps, map[string]any{"name": "b", "in": "body", "schema": map[string]any{}})
+	}
+	return ps
+}
+
+// c06Payload: the bytes sent as the body. For a formData operation a well-formed form of the kind the header names
+// (multipart with the header's own boundary when it has one, else url-encoded pairs); else a small JSON document.
+func c06Payload(in c06In) []byte {
+	if in.Params != "form" {
+		return []byte(`{"a":1}`)
+	}
+	if len(in.CT) > 0 {
+		if mt, ps, err := mime.ParseMediaType(string(in.CT[0])); err == nil && mt == "multipart/form-data" && ps["boundary"] != "" {
+			b := ps["boundary"]
+			return []byte("--" + b + "\r\nContent-Disposition: form-data; name=\"f\"\r\n\r\n1\r\n--" + b + "--\r\n")
+		}
+	}
+	return []byte("f=1&g=2")
+}
+
+// c06FormStage: what net/http itself makes of the request as a form, in the statuses the parameter stage of a formData
+// operation answers: 415 unless the media type is a form type, 400 when the form cannot be read, 0 when all is well.
+// Asked of the standard library on a request of its own, not of the code under test.
+func c06FormStage(in c06In) int {
+	if in.Params != "form" {
+		return 0
+	}
+	asked := "application/octet-stream"
+	if len(in.CT) > 0 && in.CT[0] != "" {
+		asked = string(in.CT[0])
+	}
+	mt, _, err := mime.ParseMediaType(asked)
+	if err != nil || (mt != "multipart/form-data" && mt != "application/x-www-form-urlencoded") {
+		return 415
+	}
+	st := 0
+	if p, _ := recoverTo(func() {
+		req := c06Request(in)
+		if mt == "multipart/form-data" {
+			if err := req.ParseMultipartForm(32 << 20); err != nil {
+				st = 400
+				return
+			}
+		}
+		if err := req.ParseForm(); err != nil {
+			st = 400
+		}
+	}); p {
+		st = 400
+	}
+	return st
+}
+
 type c06Reader struct{ r io.Reader } // hides the concrete reader type from net/http
 
 func (c c06Reader) Read(p []byte) (int, error) { return c.r.Read(p) }
@@ -485,10 +662,10 @@ func (c06Reader) Close() error                 { return nil }
 func c06Request(in c06In) *http.Request {
 	path := in.Path
 	if path == "" {
-		path = "/x"
+		path = strings.ReplaceAll(c06OpPath(in.Params, "/x"), "{id}", "7")
 	}
 	req := httptest.NewRequest(in.Method, path, nil)
-	payload := []byte(`{"a":1}`)
+	payload := c06Payload(in)
 	switch in.Body {
 	case "cl":
 		req.Body = c06Reader{bytes.NewReader(payload)}
@@ -562,11 +739,10 @@ func (b c06Binder) BindRequest(r *http.Request, route *middleware.MatchedRoute) 
 func c06BuildHist(in c06In) *c06Built {
 	paths := map[string]any{}
 	for _, op := range in.Ops {
-		params := []any{map[string]any{"name": "b", "in": "body", "schema": map[string]any{}}}
-		if strings.Contains(op.Path, "{id}") {
-			params = append(params, map[string]any{"name": "id", "in": "path", "type": "string", "required": true})
+		o := map[string]any{"responses": map[string]any{"200": map[string]any{"description": "ok"}}}
+		if params := c06Params(op.Params, op.Path); len(params) > 0 {
+			o["parameters"] = params
 		}
-		o := map[string]any{"parameters": params, "responses": map[string]any{"200": map[string]any{"description": "ok"}}}
 		if op.ID != "" {
 			o["operationId"] = op.ID
 		}
@@ -593,12 +769,7 @@ func c06BuildHist(in c06In) *c06Built {
 	api := untyped.NewAPI(spec)
 	api.DefaultConsumes = string(in.Default)
 	for _, mt := range append([]Bs{"application/json"}, in.Registered...) {
-		key := string(mt)
-		api.RegisterConsumer(key, runtime.ConsumerFunc(func(rd io.Reader, data interface{}) error {
-			env.log = append(env.log, "consume:"+key)
-			_, _ = io.Copy(io.Discard, rd)
-			return nil
-		}))
+		api.RegisterConsumer(string(mt), c06Consumer{env, string(mt)})
 	}
 	api.RegisterProducer("application/json", runtime.JSONProducer())
 	for _, op := range in.Ops {
@@ -615,7 +786,7 @@ func c06BuildHist(in c06In) *c06Built {
 // c06StepIn is the request of one step, as a single-request input.
 func c06StepIn(in c06In, st c06Step) c06In {
 	op := in.Ops[st.Op]
-	return c06In{Method: op.Method, Path: strings.ReplaceAll(op.Path, "{id}", "7"), CT: st.CT, Body: st.Body}
+	return c06In{Method: op.Method, Path: strings.ReplaceAll(op.Path, "{id}", "7"), CT: st.CT, Body: st.Body, Params: op.Params}
 }
 
 // c06Enter sends the request through one entry point of b: (first error status, consumer that ran, went through).
@@ -690,6 +861,7 @@ func c06RunHist(in c06In) any {
 					so.Reparse = &rp
 				}
 			}
+			so.FormSt = c06FormStage(rq)
 			so.Hist, so.HistRan = c06Enter(b, rq, st.Entry)
 			obs.Steps = append(obs.Steps, so)
 		}
@@ -750,6 +922,7 @@ func (c06) Run(inAny any) any {
 			obs.Reparse = &rp
 		}
 	}
+	obs.FormSt = c06FormStage(in)
 	pp, pm := recoverTo(func() {
 		if ct, _, err := runtime.ContentType(c06Request(in).Header); err == nil {
 			p := Bs(ct)
@@ -777,6 +950,7 @@ func (c06) Run(inAny any) any {
 		mr, rq, _ := b.ctx.RouteInfo(c06Request(in))
 		_, _, err := b.ctx.BindAndValidate(rq, mr)
 		obs.U = c06Res{Status: c06FirstCode(err), Cons: c06Consumed(env.log)}
+		obs.UPicked = c06Picked(mr)
 	})
 	if p {
 		obs.U = c06Res{Status: 598}
@@ -834,10 +1008,11 @@ func c06CoqHist(in c06In, obs c06Obs) string {
 	return head + coqList(idx, func(i int) string {
 		st, so := in.Steps[i], obs.Steps[i]
 		clPos, hdr, nonempty := c06BodyFlags(st.Body)
-		return fmt.Sprintf("(HStep %s %s %s %s %s %s %s %s %s %s %s %d %s %s %s %s %s %s)",
+		return fmt.Sprintf("(HStep %s %s %s %s %s %s %s %s %s %s %s %d %d %s %s %s %s %s %s %s)",
 			coqBytesList(bsList(in.Ops[st.Op].Declared)), coqBytesList(bsList(so.Consumes)), coqBytesList(bsList(so.Keys)),
 			coqBool(clPos), coqBool(hdr), coqBool(nonempty), coqBool(so.HasBody),
 			coqBytesList(bsList(st.CT)), coqBytes(string(so.Asked)), c06OptBytes(so.Parse), c06OptBytes(so.Reparse), st.Entry,
+			c06Kind(in.Ops[st.Op].Params), c06OptStatus(so.FormSt),
 			c06OptStatus(so.Hist.Status), c06OptBytes(so.Hist.Cons), coqBool(so.HistRan),
 			c06OptStatus(so.Fresh.Status), c06OptBytes(so.Fresh.Cons), coqBool(so.FreshRan))
 	})
@@ -849,17 +1024,30 @@ func (c06) Coq(inAny any, obsAny any) string {
 		return c06CoqHist(in, obs)
 	}
 	if obs.RouteMiss {
-		return "CGate [] [] [] [] [] false false false true [] [] None None None None None None None 0 None false"
+		return "CGate [] [] [] [] [] false false false true [] [] None None None None None None None 0 None false 0 None None"
 	}
 	clPos, hdr, nonempty := c06BodyFlags(in.Body)
-	return fmt.Sprintf("CGate %s %s %s %s %s %s %s %s %s %s %s %s %s %s %s %s %s %s %d %s %s",
+	return fmt.Sprintf("CGate %s %s %s %s %s %s %s %s %s %s %s %s %s %s %s %s %s %s %d %s %s %d %s %s",
 		coqBytesList(bsList(in.Declared)), coqBytes(string(in.Default)), coqBytesList(c06APIConsumers(in)),
 		coqBytesList(bsList(obs.Consumes)), coqBytesList(bsList(obs.Keys)),
 		coqBool(clPos), coqBool(hdr), coqBool(nonempty), coqBool(obs.HasBody),
 		coqBytesList(bsList(in.CT)), coqBytes(string(obs.Asked)),
 		c06OptBytes(obs.Parse), c06OptBytes(obs.Reparse), c06OptBytes(obs.CTImpl),
 		c06OptStatus(obs.T.Status), c06OptBytes(obs.T.Cons), c06OptStatus(obs.U.Status), c06OptBytes(obs.U.Cons),
-		obs.HStatus, c06OptBytes(obs.HCons), coqBool(obs.HRan))
+		obs.HStatus, c06OptBytes(obs.HCons), coqBool(obs.HRan),
+		c06Kind(in.Params), c06OptStatus(obs.FormSt), c06OptBytes(obs.UPicked))
+}
+
+func c06Kind(params string) int {
+	switch params {
+	case "none":
+		return 1
+	case "pqh":
+		return 2
+	case "form":
+		return 3
+	}
+	return 0
 }
 
 // the media types a consumer is registered for on the API: the case's list, plus JSON (untyped.NewAPI registers it)
@@ -917,7 +1105,11 @@ func c06HistCategory(in c06In, obs c06Obs) (string, bool) {
 		}
 	}
 	sort.Strings(as)
-	cat := fmt.Sprintf("hist/steps%d/%s/lists%d/%s/%s", len(in.Steps), same, len(lists), strings.Join(es, "+"), strings.Join(as, "+"))
+	kinds := map[string]bool{}
+	for _, st := range in.Steps {
+		kinds[in.Ops[st.Op].Params] = true
+	}
+	cat := fmt.Sprintf("hist/steps%d/%s/lists%d/kinds%d/%s/%s", len(in.Steps), same, len(lists), len(kinds), strings.Join(es, "+"), strings.Join(as, "+"))
 	return cat, len(in.Steps) >= 2 && len(lists) >= 2 && bodies >= 2
 }
 
@@ -963,5 +1155,8 @@ func (c06) Category(inAny any, obsAny any) (string, bool) {
 		lst += "/nodefault"
 	}
 	cat := fmt.Sprintf("%s/%s/%s/%s/%d", in.Method, in.Body, hdr, lst, obs.HStatus)
+	if in.Params != "" {
+		cat = "params-" + in.Params + "/" + cat
+	}
 	return cat, obs.HasBody && (len(obs.Consumes) >= 2 || wild)
 }
